@@ -22,7 +22,7 @@ MANIFEST = {
             "dispatch of encoding classes without a class theorem, the opcode tables. Trusted: Lean kernel + bv_decide certificates; "
             "Spec/X86Decode.lean as the reading of the SDM; db/x86.js + tools/gen_c01.py (with its listed database errata); harness/driver/diff.",
 }
-MODS = ["AsmjitVerif.Props.C01", "AsmjitVerif.Props.C01Front", "AsmjitVerif.Props.C01Rows", "AsmjitVerif.Props.C01Front32", "AsmjitVerif.Props.C01Rows32"]
+MODS = ["AsmjitVerif.Props.C01", "AsmjitVerif.Props.C01Front", "AsmjitVerif.Props.C01Rows", "AsmjitVerif.Props.C01Front32", "AsmjitVerif.Props.C01Rows32", "AsmjitVerif.Props.C01FrontMem", "AsmjitVerif.Props.C01RowsMem"]
 BASE = c01_forms.BASE_ADDR
 
 # classes of known, not (yet) repaired findings -> stable keys (known_findings.json)
@@ -42,8 +42,12 @@ def key_of(name, reason, form=None):
     if form and ("address-size prefix 67" in reason or "segment prefixes" in reason) and \
             any(o.get("implicit") and o.get("mem") and not o.get("reg") for o in form.get("operands", [])):
         return "implicit-mem-override-dropped"
+    # the name groups of (former) known findings apply only to the failure they describe; any other failure of the same
+    # instructions gets the generic key and is therefore never swallowed by a known-finding entry
+    pats = {"msr-imm-form-ignored": "prefix expected", "amx-rip-relative": "ModRM.rm 5", "kmov-modmr": "opcode byte",
+            "implicit-mem-override-dropped": "prefix"}
     for names, k in KEY_GROUPS:
-        if name in names:
+        if name in names and pats.get(k, "") in reason:
             return k
     return "enc:" + name
 
@@ -252,8 +256,12 @@ def run(res):
             i, m = min(items, key=lambda t: len(emits[t[0]]))
             res.violation("bytes do not decode to the call: `emit %s` -> %s ; monitor: %s (%d such calls, db form %s)" % (
                 emits[i], impl[i], m, len(items), meta[i].get("opcodeString")), {"ops": ["emit " + emits[i]], "impl": impl[i], "monitor": m}, True, key=k)
-    badset = {i for i, _ in bad}
-    diffs = [d for d in diffs if d[0] not in badset]
+    # a correspondence difference is reported unless a violation that is NOT an open known finding already explains the same call
+    known_keys = {e.get("key") for e in vlib.load_known_findings(PID) if e.get("status") == "open"}
+    explained = {i for i, m in bad if key_of(emits[i].split()[3], m, meta[i]) not in known_keys}
+    diffs = [d for d in diffs if d[0] not in explained]
+    if not emits or not acc:
+        res.violation("empty run: %d calls generated, %d accepted by the assembler" % (len(emits), len(acc)), {}, False, key="empty")
     if True:
         if diffs:
             i, mo, want = diffs[0]
@@ -261,7 +269,7 @@ def run(res):
                           "explored encoding" % (emits[i], want, mo, len(diffs)),
                           {"ops": ["emit " + emits[i]], "impl": want, "model": mo, "unchecked": "correspondence Model/X86Front.lean+X86Backend.lean ~ x86assembler.cpp"},
                           False, key="corr")
-        elif broken and not bad and not aborts:
+        if broken:
             res.violation("proof obligation no longer checks: " + " | ".join(broken)[:1500], {"unchecked": broken}, False, key="obligation")
 
 
